@@ -208,6 +208,7 @@ func checkVerdict(prop string, c valCase) (viol string, known []string, skip boo
 // faults), 2 type-blind. It returns the case, and for class 0/1 what the construction
 // expects.
 type genVal struct {
+	Before string // the document before faults were injected
 	Case   valCase
 	Schema *ref.Schema
 	Typed  *gen.TypedDoc
@@ -231,6 +232,7 @@ func genValidationCase(rt *rapid.T, class int) (g genVal, ok bool) {
 	default:
 		g.Typed = gen.TypedDocument(rt, g.Schema)
 		g.Case.Class = "valid"
+		g.Before = gen.JoinPlain(gen.QueryLexemes(g.Typed.Doc, gen.Canon))
 		if class == 1 {
 			n := rapid.IntRange(1, 3).Draw(rt, "nfaults")
 			for i := 0; i < n; i++ {
@@ -247,6 +249,9 @@ func genValidationCase(rt *rapid.T, class int) (g genVal, ok bool) {
 			g.Case.Rule = g.Faults[0].Rule
 		}
 		g.Case.Query = gen.JoinPlain(gen.QueryLexemes(g.Typed.Doc, gen.Canon))
+		if class == 1 && g.Case.Query == g.Before {
+			return g, false // the faults cancelled each other
+		}
 	}
 	return g, true
 }
